@@ -55,15 +55,18 @@ def pySlice (xs : List Rat) (s e : Int) : List Rat :=
   let e' := norm e
   (xs.drop s'.toNat).take (e' - s').toNat
 
+/-- `start, end = interval[0], interval[-1]` -/
+def ivBounds (iv : List Int) : Except Err (Int × Int) :=
+  match iv.head?, iv.getLast? with
+  | some s, some e => .ok (s, e)
+  | _, _ => .error .index
+
 /-- `IntervalSegmenter.transform`: for each fitted interval `start, end = interval[0], interval[-1]`
 and the segment is `X[:, start:end]`; result has one column per interval -/
 def isegTransform (ivs : List (List Int)) (X : Panel) : Except Err Panel := do
   let tbl ← univariateTable X
-  let bounds ← ivs.mapM (fun iv =>
-    match iv.head?, iv.getLast? with
-    | some s, some e => Except.ok (s, e)
-    | _, _ => Except.error Err.index)
-  pure (tbl.map (fun row => bounds.map (fun (s, e) => pySlice row s e)))
+  let bounds ← ivs.mapM ivBounds
+  pure (tbl.map (fun row => bounds.map (fun b => pySlice row b.1 b.2)))
 
 def iseg (iv : Intervals) (Xfit X : Panel) : Except Err Panel := do
   let ivs ← isegFit iv Xfit
